@@ -152,6 +152,7 @@ def check_irq(scn: Dict[str, Any], hist: Dict[str, Any], steps: Optional[List[Di
 
     frames: List[Dict[str, Any]] = []
     owed = {b: False for b in SRC_BITS}           # rose while it could not be taken, unserved
+    deliv_since = {b: False for b in SRC_BITS}    # some *other* delivery happened since it became owed
     window = {b: 0 for b in SRC_BITS}             # consecutive deliverable boundaries
     wake_run = 0
     max_latency = 0
@@ -183,6 +184,8 @@ def check_irq(scn: Dict[str, Any], hist: Dict[str, Any], steps: Optional[List[Di
                 if (pre[O_ISR] & bit) and not (prev[O_ISR] & bit):
                     deliverable = (pre[O_IMR] & 0x80) and (pre[O_IMR] & bit) and not in_handler
                     if not deliverable and not any(fr.get("served", 0) & bit for fr in frames):
+                        if not owed[bit]:
+                            deliv_since[bit] = False
                         owed[bit] = True
                         probe("rise_while_masked")
                 if not (pre[O_ISR] & bit) and (prev[O_ISR] & bit):
@@ -245,6 +248,8 @@ def check_irq(scn: Dict[str, Any], hist: Dict[str, Any], steps: Optional[List[Di
                         if owed[bit]:
                             probe("masked_then_taken")
                         owed[bit] = False
+                    elif owed[bit]:
+                        deliv_since[bit] = True
 
         def do_instruction():
             # ---- the instruction that executed
@@ -324,6 +329,8 @@ def check_irq(scn: Dict[str, Any], hist: Dict[str, Any], steps: Optional[List[Di
                 if d is not None and (d["imr_d"] & bit) and (d["isr_d"] & bit):
                     pass   # served immediately
                 elif not deliverable:
+                    if not owed[bit]:
+                        deliv_since[bit] = False
                     owed[bit] = True
                     probe("rise_while_masked")
             if fell:
@@ -385,7 +392,7 @@ def check_irq(scn: Dict[str, Any], hist: Dict[str, Any], steps: Optional[List[Di
                 if window[bit] >= K_IRQ:
                     V("lost_irq", k, f"{SRC_NAME[bit]} rose while masked, has been unmasked and pending for "
                       f"{K_IRQ} fault-free boundaries and was not taken (IMR={pre[O_IMR]:#04x} ISR={pre[O_ISR]:#04x})",
-                      how="not_taken", source=SRC_NAME[bit])
+                      how="not_taken", source=SRC_NAME[bit], other_delivery_since_rise=deliv_since[bit])
                     window[bit] = 0
                     owed[bit] = False
             else:
